@@ -105,6 +105,12 @@ def _check_lookups(ctx, rep, model_ok):
         r = sm.get_snapshot_by_timestamp(t)
         reqs.append(f"meta.bytime {_snaps_tok(snaps)} {t}")
         impls.append("-" if r is None else str(r.snapshot_id))
+        # oracle (any clock, any stored order): the answer is not newer than t, nothing retained lies strictly between it and t,
+        # and "no answer" only when nothing is old enough
+        elig = [s_ for s_ in snaps if s_.timestamp_ms <= t]
+        if (r is None) != (not elig) or (r is not None and (r.timestamp_ms > t or any(s_.timestamp_ms > r.timestamp_ms for s_ in elig))):
+            rep.violate("C15:timestamp-lookup-wrong", f"snapshots (id/ts) {[(s_.snapshot_id, s_.timestamp_ms) for s_ in snaps]}: lookup at {t} → "
+                        f"{None if r is None else (r.snapshot_id, r.timestamp_ms)}", {"kind": "lookup", "req": reqs[-1]})
         # most recent
         log = [s.snapshot_id for s in rng.sample(snaps, rng.randint(0, n))] + rng.sample([7, 8, 9], rng.randint(0, 2))
         rng.shuffle(log)
@@ -228,7 +234,11 @@ def _histories(ctx, rep, model_ok):
                             victims = rng.sample(cur_paths, rng.randint(1, min(2, len(cur_paths))))
                             form = rng.choice(["/", ""])
                             with t.new_transaction() as tx:
-                                tx.delete_files([form + v for v in victims])
+                                if len(victims) > 1 and rng.random() < 0.6:
+                                    for v in victims:           # several delete_files() operations in ONE transaction
+                                        tx.delete_files([form + v])
+                                else:
+                                    tx.delete_files([form + v for v in victims])
                                 tx.commit()
                             op_tok = f"add:{now}:{next_id}:-"
                             trace.append(["expect-deleted", victims])
